@@ -12,7 +12,7 @@ from enum import Enum
 from ipaddress import ip_address
 from struct import unpack_from
 
-from message import Proposal, Transform
+from message import Proposal, TrafficSelector, Transform
 from netlink import (NetlinkStructure, NetlinkProtocol, NLM_F_REQUEST, NLM_F_ACK, NetlinkError)
 
 __author__ = 'Alejandro Perez-Mendez <alejandro.perez.mendez@gmail.com>'
@@ -401,7 +401,9 @@ class Xfrm(NetlinkProtocol):
         dst_selector = child_sa.tsr.get_network()
         src_port = child_sa.tsi.get_port()
         dst_port = child_sa.tsr.get_port()
-        ip_proto = child_sa.tsi.ip_proto
+        # a kernel selector has one protocol field: when only one of the two selectors names a protocol, that is the one
+        # the SA is limited to (taking "any" from the other one would widen the SA beyond what was negotiated)
+        ip_proto = child_sa.tsi.ip_proto if child_sa.tsi.ip_proto != TrafficSelector.IpProtocol.ANY else child_sa.tsr.ip_proto
         ipsec_proto = (socket.IPPROTO_ESP if child_sa.proposal.protocol_id == Proposal.Protocol.ESP
                        else socket.IPPROTO_AH)
 
